@@ -149,6 +149,27 @@ func genLogCase(t *rapid.T, o datagen.QueryOpts, formats []string) LogCase {
 			datagen.FixAmbiguities(&c.Query)
 		}
 	}
+	// drop / keep with a value matcher over a JSON field that is a number or a boolean: the
+	// matcher sees the text of the value, as for a string.
+	if s.Format == "json" && o.AllowRewrite && rapid.IntRange(0, 5).Draw(t, "drop-keep-typed-value") == 0 {
+		var typed []datagen.Field
+		for _, f := range s.Fields {
+			if f.Type == "int" || f.Type == "float" || f.Type == "bool" {
+				typed = append(typed, f)
+			}
+		}
+		if len(typed) > 0 {
+			f := typed[rapid.IntRange(0, len(typed)-1).Draw(t, "typed-field")]
+			m := datagen.GenMatcher(t, []datagen.Field{f}, "typed-m")
+			m.Label = f.Name
+			st := gen.Stage{Kind: rapid.SampledFrom([]string{"drop", "keep"}).Draw(t, "typed-dk"), Matchers: []gen.Matcher{m}}
+			if st.Kind == "keep" {
+				st.Labels = []string{"msg"}
+			}
+			c.Query.Stages = append([]gen.Stage{{Kind: "json"}, st}, c.Query.Stages...)
+			datagen.FixAmbiguities(&c.Query)
+		}
+	}
 	// A number comparison over a stream label meets the special floats in that label: NaN fails
 	// every ordered comparison (and ==), the infinities lie beyond every literal.
 	if len(c.Recs) > 0 {
